@@ -115,6 +115,8 @@ Definition P_D1 := tan_outs P_prog P_n [0%nat].
 Eval vm_compute in ("LEAKS", "P", P_nleaks).
 Eval vm_compute in ("E0", "P", map (fun st => ib_out (nth 0 (evalIB PREC P_prog st) IB.nai)) P_inputs).
 Eval vm_compute in ("E1", "P", let d := P_D1 in map (fun st => map (fun i => ib_out (nth 0 (evalIB PREC d (st ++ P_u i)) IB.nai)) P_dirs) P_inputs).
+Eval vm_compute in ("N0", "P", map (fun st => ib_out (nth 0 (evalIB 53%Z P_prog st) IB.nai)) P_inputs).
+Eval vm_compute in ("N1", "P", let d := P_D1 in map (fun st => map (fun i => ib_out (nth 0 (evalIB 53%Z d (st ++ P_u i)) IB.nai)) P_dirs) P_inputs).
 Lemma P_scoped : wscoped P_prog P_n = true.
 Proof. vm_compute. reflexivity. Qed.
 Lemma P_inputs_length : forallb (fun st => Nat.eqb (List.length st) P_n) P_inputs = true.
@@ -133,6 +135,7 @@ Definition Q_D1 := tan_outs Q_prog Q_n [0%nat].
 Definition Q_D2 := tan_outs Q_D1 (2 * Q_n) [0%nat].
 Eval vm_compute in ("SIZES2", "P", (N.of_nat (List.length Q_prog), N.of_nat (List.length Q_D1), N.of_nat (List.length Q_D2))).
 Eval vm_compute in ("E2", "P", let d := Q_D2 in map (fun st => map (fun ij => ib_out (nth 0 (evalIB PREC d ((st ++ Q_u (fst ij)) ++ (Q_u (snd ij) ++ Q_z))) IB.nai)) Q_pairs) Q_inputs).
+Eval vm_compute in ("N2", "P", let d := Q_D2 in map (fun st => map (fun ij => ib_out (nth 0 (evalIB 53%Z d ((st ++ Q_u (fst ij)) ++ (Q_u (snd ij) ++ Q_z))) IB.nai)) Q_pairs) Q_inputs).
 Lemma Q_scoped : wscoped Q_prog Q_n = true.
 Proof. vm_compute. reflexivity. Qed.
 Lemma Q_D1_scoped : wscoped Q_D1 (2 * Q_n) = true.
